@@ -195,7 +195,7 @@ P['bfs'] = dict(params=[('node', [2, 63, 100, 257, 1000, 1024], [2048, 4096]), (
 P['bitonicsort'] = dict(params=[('length', [2, 64, 256, 512], [4096]), ('order-asc', ['true', 'false'], [])],
                         cdna3=True, multi=True, unified=True, um=True, timing=False)
 P['fastwalshtransform'] = dict(params=[('length', [2, 64, 256, 512, 2048], [8192, 65536])], cdna3=True, multi=True, unified=True, um=True, timing=False)
-P['fft'] = dict(params=[('bytes', [8192, 65536, 131072, None], [1048576]), ('MB', [None, None, 1], []), ('passes', [1, 2, 3], [])],
+P['fft'] = dict(params=[('bytes', [8192, 65536, 131072], [1048576]), ('MB', [None, 1, 2], []), ('passes', [1, 2, 3], [])],  # -bytes overrides -MB; `fft -MB=1` alone is in the core
                 cdna3=True, multi=True, unified=True, um=True, timing=True)
 P['floydwarshall'] = dict(params=[('node', [8, 16, 17, 24, 32, 48], [64, 128]), ('iter', [0, 1, 3, 5], [])],
                           cdna3=True, multi=True, unified=True, um=True, timing=True)
@@ -262,6 +262,7 @@ def vals(c):
     return d
 
 
+UM_TIMING_OK = ('atax', 'bicg', 'fft', 'floydwarshall', 'nbody', 'stencil2d')
 GLOBAL_OFFSET_WORKLOADS = ('fir', 'relu', 'aes', 'kmeans', 'bitonicsort', 'simpleconvolution')
 
 
@@ -287,6 +288,25 @@ KNOWN = [
               'work-item ID: every GPU computes the first part and the rest stays untouched (fir -length=64 -gpus=1,2 -arch=cdna3: '
               '"At position 32, expected 2600, but get 0"); gcn3 and -unified-gpus pass; atax, bicg, matrixtranspose, matrixmultiplication, '
               'nbody, pagerank, spmv, stencil2d, fft, floydwarshall and vectoradd (pointer offsets) pass'),
+    dict(id='unified-memory-timing-multi-gpu-hang', witness='relu -length=64 -gpus=1,2 -use-unified-memory -timing', timeout=30, hang=True,
+         match=lambda c: c['timing'] and c['um'] and c['ngpu'] >= 2 and c['w'] not in UM_TIMING_OK,
+         text='timing platform, >= 2 GPUs, -use-unified-memory (classes the acceptance matrix lists): after the repair of the page-migration '
+              'panic (5048ec2f) atax, bicg, fft, floydwarshall, nbody and stencil2d pass on every GPU set, but fir, aes, kmeans, '
+              'matrixmultiplication, matrixtranspose, relu and simpleconvolution deadlock with discrete GPU sets (-gpus=1,2 / 1,2,3,4: < 1 s CPU '
+              'in 40 s; matrixmultiplication -gpus=1,2,3,4 panics "slice bounds out of range"), and pagerank deadlocks with '
+              '-unified-gpus=1,2 for 65 and 100 nodes'),
+    dict(id='simpleconvolution-discrete-multi-gpu-remainder', witness='simpleconvolution -width=64 -height=64 -mask-size=1 -gpus=1,2,3', timeout=60,
+         match=lambda c: c['w'] == 'simpleconvolution' and discrete(c) and
+         ((vals(c).get('width', 254) + vals(c).get('mask-size', 3) - 1) * (vals(c).get('height', 254) + vals(c).get('mask-size', 3) - 1)) % c['ngpu'] != 0,
+         text='simpleconvolution with N discrete GPUs launches (paddedWidth*paddedHeight)/N work-items per GPU: when the padded image size is '
+              'not a multiple of N the last elements are never computed (-width=64 -height=64 -mask-size=1 -gpus=1,2,3: mismatch at position '
+              '63, 63); same defect class as discrete-multi-gpu-remainder; repaired by fix commit 41db4310 on branch work4-c01'),
+    dict(id='conv2d-backward-stride-or-non-square', witness='conv2d -enable-backward=true -stride-x=2', timeout=60,
+         match=lambda c: c['w'] == 'conv2d' and vals(c).get('enable-backward') == 'true' and
+         (vals(c).get('stride-x', 1) > 1 or vals(c).get('stride-y', 1) > 1 or vals(c).get('H', 28) != vals(c).get('W', 28)),
+         text='conv2d -enable-backward with a stride > 1 panics in host code ("mismatch in size src size [36] dst size [27]"), with a '
+              'non-square input it panics "out of memory" or "page not found in page table" (-enable-backward=true -H=32 -W=11); '
+              'stride 1 with square inputs passes for every batch/channel/kernel/padding choice'),
     dict(id='floydwarshall-node-multiple-of-8', witness='floydwarshall -node=17', timeout=60,
          match=lambda c: c['w'] == 'floydwarshall' and vals(c).get('node', 16) % 8 != 0,
          text='floydwarshall with a node count that is not a multiple of 8 (4, 12, 17, 20) fails -verify in emulation: the grid is '
@@ -317,7 +337,7 @@ KNOWN = [
               '(conv2d -N=2 -H=9 -pad-y=1 with the default W=28; -N=1 -C=3 -H=28 -W=8 -kernel-width=1 -pad-x=1: vAddr 0x7e3): a kernel of the convolution addresses memory outside '
               'its buffers, which faults only when the address leaves the mapped pages (N=1, square inputs, W=8/11 pass)'),
     dict(id='stencil2d-column-count', witness='stencil2d -row=64 -col=66', timeout=60,
-         match=lambda c: c['w'] == 'stencil2d' and vals(c).get('col', 64) not in (64, 127, 128, 192),
+         match=lambda c: c['w'] == 'stencil2d' and vals(c).get('col', 64) not in ((64, 128, 192, 256, 384) if c['arch'] == 'cdna3' else (64, 127, 128, 192, 256, 384)),
          text='stencil2d with a column count other than 64/127/128/192 (e.g. -col=66: one full 64-lane work-group) makes the emulator '
               'run into undecodable/unimplemented instructions and panic; cause not isolated'),
     dict(id='stencil2d-row-count', witness='stencil2d -row=66 -col=64', timeout=60,
@@ -354,6 +374,14 @@ def domain_ok(c):
     v = vals(c)
     if c['w'] == 'kmeans' and v.get('points', 1024) < v.get('clusters', 5):
         return False  # kmeans panics: needs at least as many points as clusters
+    if c['w'] == 'spmv' and v.get('dim', 128) ** 2 * v.get('sparsity', 0.01) < 1:
+        return False  # a matrix without a non-zero ("Allocating 0 bytes")
+    if c['w'] in ('conv2d', 'im2col'):
+        # the dilated kernel must fit into the (unpadded) input in both dimensions, otherwise the output is empty
+        k = max(v.get('kernel-height', 3), v.get('kernel-width', 3))
+        dil = max(v.get('dilate-x', 1), v.get('dilate-y', 1))
+        if dil * (k - 1) + 1 > min(v.get('H', 28), v.get('W', 28)):
+            return False
     return True
 
 
@@ -477,6 +505,19 @@ def core_matrix():
         mk('floydwarshall', '-node=32', timing=True), mk('pagerank', '-node=32 -sparsity=0.5 -iterations=3', timing=True),
         mk('atax', '-x=64 -y=64', timing=True, gpus='1,2', um=True),
     ]
+    core += [  # every numeric flag at an extreme; page-crossing accesses on a unified device; timing with 3/4 discrete GPUs on sizes
+               # that really place data on every GPU (these take seconds on a clean tree)
+        mk('fir', '-length=4096 -taps=128'), mk('fir', '-length=2048 -taps=300', arch='cdna3'),
+        mk('pagerank', '-node=1024 -sparsity=0.01 -iterations=2', gpus='1,2', unified=True), mk('bfs', '-node=1024 -degree=3', gpus='1,2', unified=True),
+        mk('pagerank', '-node=2048 -sparsity=0.005 -iterations=1', gpus='1,2,3,4', unified=True),
+        mk('fir', '-length=1024', timing=True, gpus='1,2,3'), mk('fir', '-length=1024', timing=True, gpus='1,2,3,4'),
+        mk('matrixtranspose', '-width=256', timing=True, gpus='1,2,3,4'),
+        mk('fft', '-MB=1'), mk('kmeans', '-points=256 -features=64 -clusters=16 -max-iter=10'), mk('nbody', '-particles=64 -iter=8'),
+        mk('pagerank', '-node=100 -sparsity=0.01 -iterations=16'), mk('conv2d', '-H=9 -W=9 -kernel-height=5 -kernel-width=1 -stride-x=3 -stride-y=1 -pad-x=2'),
+        mk('conv2d', '-N=2 -C=3 -enable-backward=true'),
+        mk('im2col', '-N=2 -C=3 -H=11 -W=11 -kernel-height=1 -kernel-width=5 -stride-x=1 -stride-y=3 -dilate-x=2 -dilate-y=1 -pad-y=2'),
+        mk('floydwarshall', '-node=16 -iter=5'), mk('stencil2d', '-row=64 -col=128 -iter=5'), mk('spmv', '-dim=1024 -sparsity=0.005'),
+    ]
     bad = [cfg_cmd(c) for c in core if known_class(c)]
     assert not bad, 'core configuration inside a known-finding class: %s' % bad
     return core
@@ -594,18 +635,19 @@ def main(argv):
         bindir, bad = build_samples(names)
         if bad:
             return dict(build_failed=bad)
-        jobs = [(cfg_cmd(c), 240 if thorough else 75) for c in matrix] + [(k['witness'], k['timeout']) for k in witnesses] + [(s, 240) for s in single]
+        jobs = [(cfg_cmd(c), 150 if thorough else 60) for c in matrix] + [(k['witness'], k['timeout']) for k in witnesses] + [(s, 240) for s in single]
         with ThreadPoolExecutor(max_workers=12) as ex:
             res = list(ex.map(lambda j: run_cfg(bindir, j[0], j[1]), jobs))
-        # a failing configuration is re-run (alone) before it is believed
-        out = []
-        for j, r in zip(jobs, res):
-            tries = [r]
-            if not r['ok'] and j[0] not in [k['witness'] for k in witnesses]:
-                for _ in range(2):
-                    tries.append(run_cfg(bindir, j[0], j[1]))
-            out.append(tries)
-        return dict(bindir=bindir, results=out)
+        # a failing configuration is re-run twice before it is believed (re-runs of different configurations in parallel)
+        wit_cmds = {k['witness'] for k in witnesses}
+        again = [i for i, (j, r) in enumerate(zip(jobs, res)) if not r['ok'] and j[0] not in wit_cmds][:40]
+        with ThreadPoolExecutor(max_workers=6) as ex:
+            re1 = list(ex.map(lambda i: run_cfg(bindir, jobs[i][0], jobs[i][1]), again))
+            re2 = list(ex.map(lambda i: run_cfg(bindir, jobs[i][0], jobs[i][1]), again))
+        extra = {i: [a, b] for i, a, b in zip(again, re1, re2)}
+        out = [[r] + extra.get(i, []) for i, r in enumerate(res)]
+        missing_flags = flag_coverage(bindir)
+        return dict(bindir=bindir, results=out, missing_flags=missing_flags)
 
     matrix_future = pool.submit(run_matrix)
 
@@ -697,6 +739,11 @@ def main(argv):
                       text='sample build failed')
     elif mres:
         rep.obligation('sample binaries build from the working tree', True)
+        mf = mres.get('missing_flags') or []
+        rep.obligation('every own flag of every sample (`<sample> -h`) is varied by its parameter table', not mf)
+        if mf:
+            rep.violation({'broken': 'a sample has a flag that the C01 parameter tables do not vary (tools/checks/c01.py P): the matrix would '
+                                     'never exercise it', 'flags': mf}, nofail=True, text='unvaried sample flags: %s' % ', '.join(mf))
         wit = {k['witness']: k for k in witnesses}
         for tries in mres['results']:
             r = tries[0]
